@@ -250,6 +250,9 @@ func coerceFloat(value interface{}) interface{} {
 		}
 		return coerceFloat(*value)
 	case float32:
+		if math.IsInf(float64(value), 0) {
+			return nil
+		}
 		return value
 	case *float32:
 		if value == nil {
@@ -257,6 +260,10 @@ func coerceFloat(value interface{}) interface{} {
 		}
 		return coerceFloat(*value)
 	case float64:
+		// Infinities have no Float (or JSON) representation.
+		if math.IsInf(value, 0) {
+			return nil
+		}
 		return value
 	case *float64:
 		if value == nil {
